@@ -7,6 +7,7 @@ From SU Require Import F32 F32Lemmas.
 From SU.Model Require Import Quantizer.
 From SU.Spec Require Import QuantSpec.
 From SU.Proofs Require Import QuantRecordProofs.
+From SU.Proofs Require Import QuantExtraProofs.
 Open Scope R_scope.
 
 (** every conversion, on both paths, reports stairstep = note number / 12 (the correctly
@@ -50,8 +51,31 @@ Theorem C19_window_fraction : forall ops v, wf_ops ops ->
   fin (c_frac c) /\ - / 120 - / 262144 <= R32 (c_frac c) <= / 12 + / 120 + / 262144.
 Proof. exact window_fraction. Qed.
 
+(** non-vacuity of C19_window_fraction *)
+Open Scope Z_scope.
+Theorem C19_ex_window_fraction :
+  let ops := [QConvert v_0_5] in
+  let q := qrun ops in
+  let c := snd (convert q v_0_5042) in
+  wf_ops ops /\ keeps q v_0_5042 = true /\
+  to_bits (c_frac c) = Some 998803584 /\
+  (fin (c_frac c) /\ - / 120 - / 262144 <= R32 (c_frac c) <= / 12 + / 120 + / 262144)%R.
+Proof. exact ex_window_fraction. Qed.
+Close Scope Z_scope.
+
+(** converting the same input twice gives the same record (and state) the second time *)
+Open Scope Z_scope.
+Theorem C19_convert_idem : forall ops v, wf_ops ops ->
+  let q := qrun ops in
+  snd (convert (fst (convert q v)) v) = snd (convert q v) /\
+  fst (convert (fst (convert q v)) v) = fst (convert q v).
+Proof. exact convert_idem. Qed.
+Close Scope Z_scope.
+
 Print Assumptions C19_stairstep.
 Print Assumptions C19_fraction.
 Print Assumptions C19_recompose.
 Print Assumptions C19_chromatic_fraction.
 Print Assumptions C19_window_fraction.
+Print Assumptions C19_ex_window_fraction.
+Print Assumptions C19_convert_idem.
